@@ -9,6 +9,14 @@
 //!   del <id>                                   tombstone_node + commit
 //!   compact                                    GraphEngine::compact
 //!   search <k> <c1,c2,…>                       search_vector
+//!   bigvec <id> <level> <dim> <seed>           vec with the `dim` coordinates of `wide_coords(dim, seed)` (both sides
+//!   bigsearch <k> <dim> <seed>                 generate them): dimensions around the blob page payload (8182 B = 2045.5 words)
+//!   blob <vec|nbrs|evict> <n> <seed>           storage layer alone, fresh page file: Persistent{Vector,Graph}Storage writes
+//!                                              the `n` words `blob_words(n, seed)` once, a second (cold) store instance reads
+//!                                              them back → same / diff (`evict`: one instance, 1100 more vectors evict the entry first)
+//!   xvec <id> <level> <dim> <hot|mhot|w<seed>|->  ±one-hot / zero / wide vector written to the REAL engine only (the model is not run:
+//!   xsearch <k> <dim> <hot|->                  profiles too large for it); xsearch prints the six soundness flags, which
+//!                                              theorem `sound` guarantees for any index state
 //!   reopen                                     checkpoint_on_close + open; re-runs the searches issued since
 //!                                              the last mutation before and after → same / changed
 //! coordinates are integers in half units, so every squared distance is an integer / 4 that f32
@@ -40,6 +48,78 @@ fn parse_coords(s: &str) -> Option<Vec<i64>> {
         return Some(vec![]);
     }
     s.split(',').map(|t| t.parse::<i64>().ok()).collect()
+}
+
+/// deterministic wide vector, coordinates in -3..=3 half units (same function in Driver/Hnsw.lean)
+pub fn wide_coords(dim: usize, seed: u64) -> Vec<i64> {
+    (0..dim as u64).map(|i| ((seed * 7919 + i * 104729 + (i / 3) * 31) % 7) as i64 - 3).collect()
+}
+
+/// the `n` 32-bit words of a `blob` op (same function in Driver/Hnsw.lean)
+pub fn blob_words(n: usize, seed: u64) -> Vec<u32> {
+    (0..n as u64).map(|i| ((seed.wrapping_mul(2654435761) + i * 40503 + 1) % 4294967296) as u32).collect()
+}
+
+/// `blob vec|nbrs`: one write through the store, one read through a fresh store on the same tree
+fn blob_roundtrip(kind: &str, n: usize, seed: u64) -> Result<String, String> {
+    use nervusdb_storage::index::btree::BTree;
+    use nervusdb_storage::index::hnsw::storage::{GraphStorage, PersistentGraphStorage, PersistentVectorStorage, VectorStorage};
+    use nervusdb_storage::pager::Pager;
+    let dir = crate::util::scratch_dir();
+    let mut pager = Pager::open(dir.path().join("blob.ndb")).map_err(|e| e.to_string())?;
+    let tree = BTree::create(&mut pager).map_err(|e| e.to_string())?;
+    let root = tree.root();
+    let words = blob_words(n, seed);
+    let got: Vec<u32> = match kind {
+        "vec" => {
+            let v: Vec<f32> = words.iter().map(|w| f32::from_bits(*w)).collect();
+            let mut w = PersistentVectorStorage::new(tree);
+            w.insert_vector(&mut pager, 7, &v).map_err(|e| e.to_string())?;
+            let mut r = PersistentVectorStorage::new(BTree::load(root)); // empty cache
+            r.get_vector(&mut pager, 7).map_err(|e| e.to_string())?.iter().map(|f| f.to_bits()).collect()
+        }
+        "evict" => {
+            // the SAME store instance: 1100 further vectors push id 7 out of the 1024-entry LRU cache,
+            // so this read is a cache miss by eviction (no reopen, no second instance)
+            let v: Vec<f32> = words.iter().map(|w| f32::from_bits(*w)).collect();
+            let mut w = PersistentVectorStorage::new(tree);
+            w.insert_vector(&mut pager, 7, &v).map_err(|e| e.to_string())?;
+            for id in 100..1200u32 {
+                w.insert_vector(&mut pager, id, &[id as f32, 1.0]).map_err(|e| e.to_string())?;
+            }
+            w.get_vector(&mut pager, 7).map_err(|e| e.to_string())?.iter().map(|f| f.to_bits()).collect()
+        }
+        "nbrs" => {
+            let mut w = PersistentGraphStorage::new(tree);
+            w.set_neighbors(&mut pager, 0, 7, words.clone()).map_err(|e| e.to_string())?;
+            let mut r = PersistentGraphStorage::new(BTree::load(root));
+            r.get_neighbors(&mut pager, 0, 7).map_err(|e| e.to_string())?
+        }
+        _ => return Err("bad kind".into()),
+    };
+    if got == words {
+        Ok("same".into())
+    } else {
+        let first = got.iter().zip(words.iter()).position(|(a, b)| a != b).unwrap_or(got.len().min(words.len()));
+        Ok(format!("diff | len {} -> {}, first difference at word {}", words.len(), got.len(), first))
+    }
+}
+
+/// one-hot vector (coordinate `hot` = 1.0 = 2 half units; `m<i>` = -1.0), the zero vector `-`,
+/// or `w<seed>` = `wide_coords(dim, seed)`
+fn one_hot(dim: usize, hot: &str) -> Option<Vec<i64>> {
+    let mut v = vec![0i64; dim];
+    if let Some(seed) = hot.strip_prefix('w') {
+        return Some(wide_coords(dim, seed.parse().ok()?));
+    }
+    if let Some(h) = hot.strip_prefix('m') {
+        let h: usize = h.parse().ok()?;
+        *v.get_mut(h)? = -2;
+    } else if hot != "-" {
+        let h: usize = hot.parse().ok()?;
+        *v.get_mut(h)? = 2;
+    }
+    Some(v)
 }
 
 fn to_f32(c: &[i64]) -> Vec<f32> {
@@ -142,8 +222,33 @@ impl S {
     }
 }
 
+impl S {
+    fn do_vec(&mut self, id: u32, level: u8, c: Vec<i64>) -> String {
+        self.recent.clear();
+        verif_level::push(level);
+        let eng = self.eng();
+        let mut tx = eng.begin_write();
+        let r = tx.set_vector(id, to_f32(&c)).map_err(|e| e.to_string()).and_then(|_| tx.commit().map_err(|e| e.to_string()));
+        let pending = verif_level::pending();
+        match r {
+            Ok(()) => {
+                self.shadow.insert(id, c);
+                if pending == 0 { "ok".into() } else { "ok | level-not-consumed".into() }
+            }
+            Err(e) => format!("err | {}", e.replace(['\n', '\t'], " ")),
+        }
+    }
+}
+
 impl State for S {
     fn step(&mut self, ws: &[&str]) -> String {
+        if let ["blob", kind, n, seed] = ws {
+            let (Ok(n), Ok(seed)) = (n.parse::<usize>(), seed.parse::<u64>()) else { return "bad-op".into() };
+            return match blob_roundtrip(kind, n, seed) {
+                Ok(s) => s,
+                Err(e) => format!("err | {}", e.replace(['\n', '\t'], " ")),
+            };
+        }
         if self.eng.is_none() && ws.first() != Some(&"params") {
             // a case without `params` (e.g. a shrunk replay) runs with the defaults, like the model
             self.params("16", "200", "200");
@@ -169,19 +274,22 @@ impl State for S {
                 let (Ok(id), Ok(level), Some(c)) = (id.parse::<u32>(), level.parse::<u8>(), parse_coords(coords)) else {
                     return "bad-op".into();
                 };
-                self.recent.clear();
-                verif_level::push(level);
-                let eng = self.eng();
-                let mut tx = eng.begin_write();
-                let r = tx.set_vector(id, to_f32(&c)).map_err(|e| e.to_string()).and_then(|_| tx.commit().map_err(|e| e.to_string()));
-                let pending = verif_level::pending();
-                match r {
-                    Ok(()) => {
-                        self.shadow.insert(id, c);
-                        if pending == 0 { "ok".into() } else { "ok | level-not-consumed".into() }
-                    }
-                    Err(e) => format!("err | {}", e.replace(['\n', '\t'], " ")),
-                }
+                self.do_vec(id, level, c)
+            }
+            ["bigvec", id, level, dim, seed] => {
+                let (Ok(id), Ok(level), Ok(dim), Ok(seed)) =
+                    (id.parse::<u32>(), level.parse::<u8>(), dim.parse::<usize>(), seed.parse::<u64>())
+                else {
+                    return "bad-op".into();
+                };
+                self.do_vec(id, level, wide_coords(dim, seed))
+            }
+            ["xvec", id, level, dim, hot] => {
+                let (Ok(id), Ok(level), Ok(dim)) = (id.parse::<u32>(), level.parse::<u8>(), dim.parse::<usize>()) else {
+                    return "bad-op".into();
+                };
+                let Some(c) = one_hot(dim, hot) else { return "bad-op".into() };
+                self.do_vec(id, level, c)
             }
             ["del", id] => {
                 let Ok(id) = id.parse::<u32>() else { return "bad-op".into() };
@@ -214,6 +322,39 @@ impl State for S {
                     self.recent.push((k, q.clone()));
                 }
                 self.search(k, &q)
+            }
+            ["bigsearch", k, dim, seed] => {
+                let (Ok(k), Ok(dim), Ok(seed)) = (k.parse::<usize>(), dim.parse::<usize>(), seed.parse::<u64>()) else {
+                    return "bad-op".into();
+                };
+                let q = wide_coords(dim, seed);
+                if self.recent.len() < 8 {
+                    self.recent.push((k, q.clone()));
+                }
+                self.search(k, &q)
+            }
+            ["xsearch", k, dim, hot] | ["xsearch", k, dim, hot, _] => {
+                let (Ok(k), Ok(dim)) = (k.parse::<usize>(), dim.parse::<usize>()) else { return "bad-op".into() };
+                let Some(q) = one_hot(dim, hot) else { return "bad-op".into() };
+                if self.recent.len() < 8 {
+                    self.recent.push((k, q.clone()));
+                }
+                // soundness flags only: `lenok distinct sorted distok hasvec live`; with a 5th token (the
+                // number of results the generator's construction guarantees) also the result count
+                let full = self.search(k, &q);
+                let mut parts = full.splitn(2, " | ");
+                let obs = parts.next().unwrap_or("");
+                let detail = parts.next().unwrap_or("-");
+                let flags: Vec<&str> = obs.split_whitespace().collect();
+                if flags.len() != 7 {
+                    return full;
+                }
+                if ws.len() == 5 {
+                    let n = if detail == "-" { 0 } else { detail.split(',').count() };
+                    format!("{} | n={}", flags[..6].join(" "), n)
+                } else {
+                    flags[..6].join(" ")
+                }
             }
             ["reopen"] => {
                 let before: Vec<_> = self.recent.iter().map(|(k, q)| self.raw_search(*k, q)).collect();
@@ -305,9 +446,70 @@ fn gen_case(rng: &mut Rng, out: &mut dyn Write, big: bool) {
     writeln!(out, "search {} {}", rng.pick(&[1u64, 3, 50]), gen_coords(rng, dim, spread + 1)).unwrap();
 }
 
+/// vectors whose encoding ends just before / on / after a blob page boundary (8182 payload bytes =
+/// 2045.5 words; two pages = 4091 words), searched before and after a reopen (cold vector cache)
+fn gen_wide_cases(out: &mut dyn Write) -> usize {
+    let mut lines = 0;
+    // the blob layer alone: lengths around one and two page payloads (2045.5 / 4091 words), both stores
+    writeln!(out, "#case blob").unwrap();
+    for (i, n) in [0usize, 1, 3, 2044, 2045, 2046, 2047, 2048, 3072, 4090, 4091, 4092, 4093, 6137, 9000].iter().enumerate() {
+        writeln!(out, "blob vec {} {}", n, i + 1).unwrap();
+        writeln!(out, "blob nbrs {} {}", n, 100 + i).unwrap();
+        lines += 2;
+    }
+    for (i, n) in [2045usize, 2046, 3072, 4093].iter().enumerate() {
+        writeln!(out, "blob evict {} {}", n, 200 + i).unwrap();
+        lines += 1;
+    }
+    for (ci, dim) in [2045usize, 2046, 2047, 3072, 4090, 4091, 4092, 4093].iter().enumerate() {
+        writeln!(out, "#case wide{}", dim).unwrap();
+        writeln!(out, "params 2 200 200").unwrap();
+        for id in 0..4u64 {
+            writeln!(out, "bigvec {} {} {} {}", id, if id == 2 { 1 } else { 0 }, dim, 11 * (ci as u64 + 1) + id).unwrap();
+        }
+        writeln!(out, "bigsearch 3 {} {}", dim, 5 + ci).unwrap();
+        writeln!(out, "bigsearch 10 {} {}", dim, 11 * (ci as u64 + 1) + 1).unwrap();
+        writeln!(out, "reopen").unwrap();
+        writeln!(out, "bigsearch 3 {} {}", dim, 5 + ci).unwrap();
+        writeln!(out, "bigsearch 10 {} {}", dim, 11 * (ci as u64 + 1) + 1).unwrap();
+        // a vector of another length next to them, and one more cold read
+        writeln!(out, "bigvec 4 0 {} 99", dim - 1).unwrap();
+        writeln!(out, "reopen").unwrap();
+        writeln!(out, "bigsearch 5 {} {}", dim, 5 + ci).unwrap();
+        lines += 13;
+    }
+    lines
+}
+
+/// thorough tier: 1100 vectors in one engine, two of them wide, searched before and after a reopen.
+/// (Eviction from the 1024-entry LRU is not forced here — the entry point and its neighbours are touched
+/// by every insert and stay cached; the eviction path is forced by `blob evict`.)  Run on the real engine only
+/// (`xvec`/`xsearch`).  (A neighbour list longer than a page needs M ≥ 1023 and 2046 back-links to one
+/// hub; that is reachable — ef_construction = 1, ±one-hot vectors around the zero vector — but the hub's
+/// list is then rewritten 2055 times under ONE B-tree key and `get_neighbors` reads a stale 280-entry
+/// version (C26-equal-keys), so the long list is never read back through the engine; `blob nbrs`
+/// exercises that decoder directly instead.)
+fn gen_profile_cases(out: &mut dyn Write) -> usize {
+    writeln!(out, "#case evict").unwrap();
+    writeln!(out, "params 2 4 2000").unwrap();
+    writeln!(out, "xvec 0 0 3072 w5").unwrap();
+    writeln!(out, "xvec 1 0 4093 w6").unwrap();
+    for id in 2..1100u32 {
+        writeln!(out, "xvec {} 0 4 {}", id, id % 4).unwrap();
+    }
+    writeln!(out, "xsearch 2000 3072 w5").unwrap();
+    writeln!(out, "xsearch 3 4093 w6").unwrap();
+    writeln!(out, "reopen").unwrap();
+    writeln!(out, "xsearch 2000 3072 w5").unwrap();
+    1100 + 6
+}
+
 fn generate(rng: &mut Rng, n: usize, tier: &str, out: &mut dyn Write) {
     let mut case = 0usize;
-    let mut emitted = 0usize;
+    let mut emitted = gen_wide_cases(out);
+    if tier == "thorough" {
+        emitted += gen_profile_cases(out);
+    }
     while emitted < n {
         writeln!(out, "#case g{}", case).unwrap();
         let mut buf: Vec<u8> = Vec::new();
